@@ -1,5 +1,6 @@
 import Driver.Witness
 import Driver.Bastion
+import Driver.Conc
 open Std
 namespace Drv
 
@@ -37,6 +38,13 @@ def handle (st : St) (n : Nat) (line : String) : Result := Id.run do
     | _, _, _ => return { st, out := [s!"BAD {n} TRUTH"] }
   | "U" :: _ => return handleU st n toks
   | "H" :: _ => return handleH st n toks
+  | "LR" :: sid :: _ => return { st := { st with lreqs := st.lreqs.push (sid, toks) }, out := [] }
+  | "LIN" :: sid :: _ =>
+    let mine := st.lreqs.filter (fun p => p.1 == sid)
+    let st := { st with lreqs := st.lreqs.filter (fun p => p.1 != sid) }
+    match mine.toList.mapM (fun p => parseLR p.2) with
+    | some rs => return handleLIN st n toks rs.toArray
+    | none => return { st, out := [s!"BAD {n} LR"] }
   | "PB" :: _ => return handlePB st n toks
   | "PBW" :: _ => return handlePBW st n toks
   | "PFR" :: _ => return handlePF st n toks
